@@ -1,5 +1,5 @@
 HOOK_COMMITS = ["5411e01"]
-NOTES = "See DESIGN.md. Exit codes: 0 held / 1 violation (VIOLATION line) / 2 machinery failure. Beyond the listed properties the specification also covers the rest of the GFA library surface and its visited-flag protocol (spec/GfaQueries.tla, ./check X01, EXT-DEVIATION lines, evidence_ext/; DESIGN 11.2e) - not a claimed check."
+NOTES = "See DESIGN.md. Exit codes: 0 held / 1 violation (VIOLATION line) / 2 machinery failure. Beyond the listed properties the specification also covers the rest of the GFA library surface and its visited-flag protocol (spec/GfaQueries.tla, ./check X01), the biccs state machine on line-level traces (spec/Biccs.tla, X02), the file-system contract of the commands (spec/Frame.tla, X03), histories of commands and their algebra (spec/Pipeline.tla, X04) and the outcome class of every option combination (spec/CliTable.tla, X05): EXT-DEVIATION lines, evidence_ext/; DESIGN 11.2e-11.2j - not claimed checks. An exception raised inside gaftools by a library call of a check is reported as a violation (raised_inside_gaftools:<type>), not as a machinery failure."
 NOT_APPLICABLE = {}
 CHECKS = {
     "C14": dict(
